@@ -20,7 +20,7 @@ EXPLANATION = ''
 
 def profiles(thorough):
     p = Profile(nT=1, nS=3, nG=5, nC=8, nK=1, flavours=["TI", "TV", "TA", "I", "V", "TI", "TV"],
-                specs={"fn": 4, "fwd": 7, "trk": 1}, body_prob=0.3, len=(15, 60 if not thorough else 150), prelude=8,
+                specs={"fn": 4, "fwd": 7, "trk": 1, "ownT": 2, "ownK": 1}, body_prob=0.3, len=(15, 60 if not thorough else 150), prelude=8,
                 w={"newG": 8, "connfn": 14, "mkS": 4, "conn": 4, "emit": 12, "cpG": 5, "mvG": 5, "masgG": 3, "asgG": 2, "delG": 6,
                    "size?": 5, "connected?": 6, "emptyS?": 3, "callS": 2},
                 bw={"delG": 6, "mvG": 3, "masgG": 2, "emit": 3, "disc": 2, "throw": 0})
